@@ -504,6 +504,21 @@ func c09R3Delete(c *Ctx, R3 string, h *c09Helpers) {
 		}
 	}
 	c.Check(R3, fn+"|removes-and-deletes-the-same-node", d.Pos(), okT, "graph.Remove and Storage.Delete receive the same descriptor")
+	// success of the per-node step implies that the blob removal was attempted, whatever the options say
+	if ei := ErrResultIndex(d.Signature); ei >= 0 && d != h.del {
+		ct := newCut()
+		for _, sc := range CallsTo(d, c09nStDelete) {
+			ct.Instr(sc.(ssa.Instruction))
+		}
+		okS, at := true, d.Pos()
+		for _, a := range RetAtoms(d, ei) {
+			if c09MayBeNilAtom(d, a) && !AtomMustPass(a, ct) {
+				okS, at = false, a.Ret.Pos()
+			}
+		}
+		c.Check(R3, fn+"|success-implies-blob-removed", at, okS, ifelse(okS, "every return of the per-node delete step that may report success lies behind Storage.Delete",
+			"the per-node delete step can report success without having called Storage.Delete: the node is untagged and unlinked, index.json is saved, but the blob stays in storage"))
+	}
 	// sameAsTarget: v (in function f, at or below the delete helper) denotes the node being removed
 	sameAsTarget := func(v ssa.Value) bool {
 		os, ok := c09Origins(c.P, v, 2, d)
@@ -2006,7 +2021,90 @@ func c09R4(c *Ctx) {
 			}
 		}
 	}
+	c09R4SweepCompletes(c, R4, h)
 	c09R4GcIndex(c, R4, h)
+}
+
+// c09R4SweepCompletes: a loop of the sweep (its body removes files, or calls
+// down to the removal) is left early only with an error: every return that may
+// report success and can be reached once an iteration has begun lies behind the
+// loop's own exit (the collection is exhausted).  `return nil` / `break` in the
+// body would end the sweep at the first skipped entry and GC would report
+// success with unreachable blobs left behind.  Range-over-func loops and
+// callback walks have no such loop and are not judged here.
+func c09R4SweepCompletes(c *Ctx, R4 string, h *c09Helpers) {
+	gn := FnName(h.gc)
+	removes := map[*ssa.Function]bool{}
+	for _, g := range h.sweepHosts {
+		removes[g] = true
+	}
+	below := c09ReachableInPkg(h.gc, 3)
+	for changed := true; changed; {
+		changed = false
+		for _, g := range below {
+			if removes[g] || g == h.gcIndex || c09IsYieldBody(g) {
+				continue
+			}
+			for _, call := range Calls(g, func(string) bool { return true }) {
+				if cal := c09Callee(call); cal != nil && removes[cal] {
+					removes[g], changed = true, true
+				}
+			}
+		}
+	}
+	nLoops := 0
+	for _, g := range below {
+		if !removes[g] || c09IsYieldBody(g) {
+			continue
+		}
+		ei := ErrResultIndex(g.Signature)
+		if ei < 0 {
+			continue
+		}
+		for _, l := range Loops(g) {
+			sweeps := false
+			for _, call := range Calls(g, func(string) bool { return true }) {
+				if !l.Contains(call.(ssa.Instruction)) {
+					continue
+				}
+				n := CalleeName(call)
+				if cal := c09Callee(call); n == "os.Remove" || n == "os.RemoveAll" || n == "(*os.Root).Remove" || (cal != nil && removes[cal]) {
+					sweeps = true
+				}
+			}
+			if !sweeps {
+				continue
+			}
+			ct := newCut()
+			for _, s := range l.Header.Succs {
+				if !l.Blocks[s] {
+					ct.Edges(Edge{l.Header, s})
+				}
+			}
+			var start *ssa.BasicBlock
+			for _, s := range l.Header.Succs {
+				if l.Blocks[s] {
+					start = s
+				}
+			}
+			if start == nil || len(ct.edges) == 0 {
+				continue
+			}
+			ok, at := true, blockPos(l.Header)
+			for _, a := range RetAtoms(g, ei) {
+				if c09MayBeNilAtom(g, a) && c09AtomReachableFrom(start, 0, a, ct) {
+					ok, at = false, a.Ret.Pos()
+				}
+			}
+			nLoops++
+			sfx := ""
+			if nLoops > 1 {
+				sfx = fmt.Sprintf("#%d", nLoops)
+			}
+			c.Check(R4, gn+"|sweep-runs-to-the-end"+sfx, at, ok, ifelse(ok, "once begun, the sweep loop is left without an error only when its collection is exhausted",
+				"the sweep loop can be left early with a nil error: the entries after the first skipped one are never examined, GC reports success and unreachable blobs stay in storage"))
+		}
+	}
 }
 
 // c09AlgSetOf: the bool value v is true exactly when arg is a member of a fixed
@@ -2297,6 +2395,32 @@ func c09R4GcIndex(c *Ctx, R4 string, h *c09Helpers) {
 	if newRes == nil || newGraph == nil {
 		c.LostAnchor(R4, fn+": replacement of s.tagResolver and s.graph")
 		return
+	}
+	// the rebuilt metadata is installed only when the whole rebuild succeeded: no return that may carry an
+	// error is produced after an install (a failing pass must leave the store's resolver/graph as they were)
+	if ei := ErrResultIndex(f.Signature); ei >= 0 {
+		var installs []*ssa.Store
+		AllInstrs(f, func(in ssa.Instruction) {
+			if s, ok := in.(*ssa.Store); ok && (c09IsFieldAddrOf(s.Addr, store, "tagResolver") || c09IsFieldAddrOf(s.Addr, store, "graph")) {
+				installs = append(installs, s)
+			}
+		})
+		okI, at := true, f.Pos()
+		for _, a := range RetAtoms(f, ei) {
+			if cst, isC := a.Val.(*ssa.Const); isC && cst.Value == nil {
+				continue
+			}
+			if _, isZero := a.Val.(zeroMarker); isZero {
+				continue
+			}
+			for _, st := range installs {
+				if c09AtomReachableFrom(st.Block(), instrIndex(st)+1, a, newCut()) {
+					okI, at = false, a.Ret.Pos()
+				}
+			}
+		}
+		c.Check(R4, fn+"|installed-only-when-rebuilt", at, okI, ifelse(okI, "s.tagResolver / s.graph are replaced only after every pass of the rebuild succeeded: no error is returned past the replacement",
+			"an error can be returned after s.tagResolver / s.graph were replaced: a failing pass leaves half-built metadata installed although GC reports failure (reachable content then looks unreachable)"))
 	}
 	pass1 := 0
 	gcIndexFn := f
@@ -2685,6 +2809,23 @@ var c09Mutants = []Mutant{
 		Old:    "\ts.sync.Lock()\n\tdefer s.sync.Unlock()\n\n\tdeleteQueue",
 		New:    "\ts.sync.RLock()\n\tdefer s.sync.RUnlock()\n\n\tdeleteQueue",
 		Expect: "C09.R5.exclusive|(*~/content/oci.Store).Delete"},
+	// wave 5: conditions that the carrier / extracted forms must keep too
+	{Name: "tag-stale-drop-after-insert", File: "internal/resolver/memory.go",
+		Old:    "\tif old, ok := m.index[reference]; ok && old.Digest != desc.Digest {\n\t\t// the reference is moved from another digest, drop the stale entry\n\t\tif oldTagSet, ok := m.tags[old.Digest]; ok {\n\t\t\toldTagSet.Delete(reference)\n\t\t\tif len(oldTagSet) == 0 {\n\t\t\t\tdelete(m.tags, old.Digest)\n\t\t\t}\n\t\t}\n\t}\n\tm.index[reference] = desc\n\ttagSet, ok := m.tags[desc.Digest]\n\tif !ok {\n\t\ttagSet = set.New[string]()\n\t\tm.tags[desc.Digest] = tagSet\n\t}\n\ttagSet.Add(reference)\n",
+		New:    "\told, retagged := m.index[reference]\n\tm.index[reference] = desc\n\ttagSet, ok := m.tags[desc.Digest]\n\tif !ok {\n\t\ttagSet = set.New[string]()\n\t\tm.tags[desc.Digest] = tagSet\n\t}\n\ttagSet.Add(reference)\n\tif retagged {\n\t\tif oldTagSet, ok := m.tags[old.Digest]; ok {\n\t\t\toldTagSet.Delete(reference)\n\t\t\tif len(oldTagSet) == 0 {\n\t\t\t\tdelete(m.tags, old.Digest)\n\t\t\t}\n\t\t}\n\t}\n",
+		Expect: "C09.R2.inverse-tags|(*~/internal/resolver.Memory).Tag|index-update:inverse-survives"},
+	{Name: "delete-skips-blob-without-autogc", File: "content/oci/oci.go",
+		Old:    "\tif err := s.storage.Delete(ctx, target); err != nil {\n\t\treturn nil, err\n\t}\n\treturn danglings, nil",
+		New:    "\tif !s.AutoGC {\n\t\treturn nil, nil\n\t}\n\tif err := s.storage.Delete(ctx, target); err != nil {\n\t\treturn nil, err\n\t}\n\treturn danglings, nil",
+		Expect: "C09.R3.cascade-guards|(*~/content/oci.Store).delete|success-implies-blob-removed"},
+	{Name: "sweep-stops-at-first-skipped-entry", File: "content/oci/oci.go",
+		Old:    "\t\t\t\t// skip irrelevant content\n\t\t\t\tcontinue",
+		New:    "\t\t\t\t// skip irrelevant content\n\t\t\t\treturn nil",
+		Expect: "C09.R4.sweep-guard|(*~/content/oci.Store).GC|sweep-runs-to-the-end"},
+	{Name: "gcindex-installs-before-referrer-pass", File: "content/oci/oci.go",
+		Old:    "\t// index referrer manifests\n",
+		New:    "\ts.tagResolver = tagResolver\n\ts.graph = graph\n\n\t// index referrer manifests\n",
+		Expect: "C09.R4.sweep-guard|(*~/content/oci.Store).gcIndex|installed-only-when-rebuilt"},
 	{Name: "delete-unlocks-early", File: "content/oci/oci.go",
 		Old:    "\t\tdanglings, err := s.delete(ctx, head)\n",
 		New:    "\t\ts.sync.Unlock()\n\t\tdanglings, err := s.delete(ctx, head)\n\t\ts.sync.Lock()\n",
